@@ -31,9 +31,9 @@ Proof. exact omitempty_own_field. Qed.
 (* non-vacuity: tags, naming, a nil embedded pointer and an omitted empty member *)
 Example C15_example :
   let tg0 := mkTag false [] false false false in
-  let ty := TStruct [x54] [Fld [x45] true tg0 true (TPtr (TStruct [x45] [Fld [x58] true tg0 false TInt]));
+  let ty := TStruct [x54] [Fld [x45] true tg0 true (TPtr (TStruct [x45] [Fld [x58] true tg0 false (TInt false)]));
                            Fld [x4e; x61; x6d; x65] true (mkTag true [x6e] false true false) false TStr;
-                           Fld [x49; x44] true tg0 false TInt] in
+                           Fld [x49; x44] true tg0 false (TInt false)] in
   enc (mkOpts true false false false false None false false false) ty (GStruct [GNil; GStr []; GInt 7])
   = JObj [([x69; x64], JInt 7)].
 Proof. vm_compute. reflexivity. Qed.
